@@ -184,6 +184,7 @@ func strayOptions(kind string, sel int) ([]gtree.Option, string) {
 		add("nil", nil)
 		if kind != "walk" {
 			add("branch", gtree.WithBranchFormatLastNode("X", "Y"))
+			add("branch-again", gtree.WithBranchFormatIntermedialNode("P", "Q"))
 		}
 	case 5:
 		if kind == "mkdir" {
